@@ -28,6 +28,7 @@ POS = {
     "default": ("CREATE TABLE t1 (a int, b varchar(50) DEFAULT {L}, c int);", lambda r: r[0]["columns"][1]["default"]),
     "comment": ("CREATE TABLE t1 (a int, b varchar(50) COMMENT {L}, c int);", lambda r: r[0]["columns"][1]["comment"]),
     "check": ("CREATE TABLE t1 (a int, b varchar(50), c int, CHECK (b <> {L}));", lambda r: r[0]["checks"][0]["statement"]),
+    "col_check": ("CREATE TABLE t1 (a int, b varchar(50) CHECK (b <> {L}), c int);", lambda r: r[0]["columns"][1]["check"]),
     "enum": ("CREATE TYPE ty1 AS ENUM ('first', {L}, 'last');", lambda r: r[0]["properties"]["values"][1]),
     "option": ("CREATE TABLE t1 (a int, b varchar(50), c int) LOCATION {L};", lambda r: r[0]["table_properties"]["location"]),
 }
@@ -86,7 +87,7 @@ def run(tier, seed):
         except Exception as e:  # noqa
             V.mismatch(dict(case, problem="literal not reported at its position (" + type(e).__name__ + ")"), tags=tags, paths=["missing"])
             continue
-        ok = (got == lit) if pid != "check" else (isinstance(got, str) and lit in got)
+        ok = (got == lit) if pid not in ("check", "col_check") else (isinstance(got, str) and lit in got)
         if not ok:
             V.mismatch(dict(case, problem="literal not verbatim", reported=got), tags=tags, paths=["literal"])
     # numeric defaults come back as integers of the same value
